@@ -134,14 +134,16 @@ Definition ho_step (conn_id : conn) (o : ho) (op : hop) (obs : hobs) : ho :=
   let resolved := match ho_cur o2 with None => true | Some _ => false end in
   let ok5 := match op with
              | HPollClose _ => resolved
-             | _ => if resolved || halted then true
+             | _ => if resolved then true
+                    else if halted then false     (* halted with the outcome of an accepted wantlist still unreported: the Failed report is stuck *)
                     else match ss with
                          | SsRequestReceived _ _ => has_timeout && has_msg       (* waiting for a stream, timer armed *)
                          | SsSending _ _ => sink =? 2                           (* a stream is held and being flushed *)
                          | _ => false
                          end
              end in
-  MkHo (ho_cur o2) (ho_streams o2) (ho_frames o2) halted (ho_ok14 o2) (ho_ok5 o2 && ok5).
+  (* C14 "delivered whole or reported failed": a handler that gave up (halted) has reported the wantlist it had accepted as failed *)
+  MkHo (ho_cur o2) (ho_streams o2) (ho_frames o2) halted (ho_ok14 o2 && (resolved || negb halted)) (ho_ok5 o2 && ok5).
 
 Fixpoint ho_run (conn_id : conn) (o : ho) (ops : list hop) (obs : list hobs) : ho :=
   match ops, obs with
